@@ -1,6 +1,7 @@
 SPECIFICATION Spec
 CONSTANT N = 3
 CONSTANT AMax = 2
+CONSTANT TinyOnly = TRUE
 CONSTANT EMax = 1
 INVARIANT RadixOk
 INVARIANT LexIsFlatInv
